@@ -154,6 +154,13 @@ func c08LocatorEval(c c08Case) (bool, string, string) {
 		if err == nil {
 			// a locator is applied to every record of a stream: the second application
 			// (to a fresh, identical record) must give the same regions as the first
+			// ... and what it located in an earlier, different record (longer, its table in the opposite order and a
+			// feature short) must not show in the record judged here
+			var other gts.FeatureSlice
+			for i := len(feats) - 1; i >= 1; i-- {
+				other = append(other, feats[i])
+			}
+			loc(gts.New(nil, other, cloneBytes(c08Residues(c.L+3))))
 			first := loc(gts.New(nil, append(gts.FeatureSlice(nil), feats...), cloneBytes(c08Residues(c.L))))
 			got = loc(seq)
 			if !reflect.DeepEqual(regionAtomsAll(first), regionAtomsAll(got)) || len(first) != len(got) {
